@@ -137,7 +137,7 @@ def make_pool(spec: PoolSpec):
         return A.build(t, True, memo)
 
     pool = {"e1": build_with_shared(spec.t1), "e2": build_with_shared(spec.t2), "s": s,
-            "pts": [Point(**p) for p in spec.points], "outs": {}, "kept": None, "asexpr_called": ()}
+            "pts": [Point(**p) for p in spec.points], "outs": {}, "kept": None, "keptP": None, "asexpr_called": ()}
     for sl in spec.slots:
         pool[sl] = None
     return pool
@@ -147,7 +147,7 @@ def make_standalone(spec: PoolSpec):
     """Freshly built, never-used copies: every expression built on its own (tree mode, nothing shared
     between e1, e2 and s).  This is what the answers of the pooled objects are compared with."""
     pool = {"e1": A.build(spec.t1), "e2": A.build(spec.t2), "s": A.build(spec.shared),
-            "pts": [Point(**p) for p in spec.points], "outs": {}, "kept": None, "asexpr_called": ()}
+            "pts": [Point(**p) for p in spec.points], "outs": {}, "kept": None, "keptP": None, "asexpr_called": ()}
     for sl in spec.slots:
         pool[sl] = None
     return pool
@@ -159,8 +159,6 @@ def ops_for(spec: PoolSpec):
     terms = {"e1": spec.t1, "e2": spec.t2, "s": spec.shared}
     for e in ("e1", "e2", "s"):
         for j in range(np_):
-            if e == "s" and j >= 2:
-                continue
             ops.append(("at", e, j))
             if e != "s":
                 ops.append(("LD", e, j, "x"))
@@ -192,6 +190,10 @@ def ops_for(spec: PoolSpec):
             for j in range(np_):
                 ops.append(("out.at", sl, j))
         else:  # Differential
+            ops.append(("Df.comp.keep", sl, "x"))
+            ops.append(("keptP.at", 0))
+            ops.append(("keptP.at", 1))
+            ops.append(("keptP.asexpr",))
             ops.append(("Df.at.repr", sl, 0))
             ops.append(("Df.at.repr", sl, "twin"))
             for j in range(np_):
@@ -209,6 +211,10 @@ def enabled(pool, op):
         return True
     if k == "LD.read":
         return pool["kept"] is not None
+    if k == "Df.comp.keep":
+        return pool.get(op[1]) is not None
+    if k in ("keptP.at", "keptP.asexpr"):
+        return pool.get("keptP") is not None
     if k in ("out.at", "out.repr", "regen", "regen2"):
         return (op[1], None) in pool["outs"]
     return pool.get(op[1]) is not None
@@ -235,6 +241,20 @@ def apply_op(pool, op):
         return c
     if k == "LD.read":
         return A.outcome(lambda: pool["kept"][0].component(op[1]))
+    if k == "Df.comp.keep":
+        c = A.construct(lambda: pool[op[1]].component(op[2]))
+        if c[0] == "ok":
+            pool["keptP"] = (c[1], op[1], op[2])
+            pool["asexpr_called"] = tuple(x for x in pool["asexpr_called"] if x != "keptP")
+            return ("ok",)
+        pool["keptP"] = None
+        return c
+    if k == "keptP.at":
+        return A.outcome(lambda: pool["keptP"][0].at(pts[op[1]]))
+    if k == "keptP.asexpr":
+        if "keptP" not in pool["asexpr_called"]:
+            pool["asexpr_called"] = tuple(sorted(pool["asexpr_called"] + ("keptP",)))
+        return A.outcome(lambda: pool["keptP"][0].as_expression())
     if k == "repr":
         return _text(lambda: repr(pool[op[1]]))
     if k == "out.repr":
@@ -313,7 +333,7 @@ def _text(thunk):
 
 def prerequisites(op):
     k = op[0]
-    if k in ("at", "at_num", "LD", "new", "D.at_num", "LD.keep", "repr", "overflow", "LD.read"):
+    if k in ("at", "at_num", "LD", "new", "D.at_num", "LD.keep", "repr", "overflow", "LD.read", "keptP.at", "keptP.asexpr"):
         return []
     pre = [("new", op[1])]
     if k in ("out.at", "out.repr", "regen", "regen2"):
@@ -326,6 +346,12 @@ def expected_key(pool, op):
     if op[0] == "LD.read":
         _, e, j = pool["kept"]
         return ("LD", e, j, op[1])
+    if op[0] == "keptP.at":
+        _, sl, v = pool["keptP"]
+        return ("Df.component_at", sl, v, op[1])
+    if op[0] == "keptP.asexpr":
+        _, sl, v = pool["keptP"]
+        return ("Df.component.asexpr", sl, v)
     return op
 
 
@@ -453,6 +479,7 @@ def canon(pool, spec, gsnap=None):
         enc(pool["outs"][k])
     ap("kept")
     enc(pool["kept"])
+    enc(pool.get("keptP"))
     ap("pts")
     for p in pool["pts"]:
         enc(p)
@@ -526,6 +553,8 @@ def is_dirty(pool, spec, op):
         targets.append(pool[op[1]])
     elif k in ("LD.read", "overflow"):
         return pool["kept"] is not None
+    elif k in ("keptP.at", "keptP.asexpr", "Df.comp.keep"):
+        return True
     elif k in ("out.repr", "regen", "regen2"):
         targets.append(pool["outs"].get((op[1], None)))
     elif k == "new":
@@ -580,6 +609,8 @@ def same_outcome(expected, got, switched):
 def switched_path(pool, op):
     """A late object legitimately answers through its symbolic path only after as_expression() was called on it in
     this history (recorded by the harness, not read from the object's internals)."""
+    if op[0] == "keptP.at":
+        return pool["keptP"][1].endswith("l") and "keptP" in pool.get("asexpr_called", ())
     if op[0] != "obj.at":
         return False
     return op[1].endswith("l") and op[1] in pool.get("asexpr_called", ())
@@ -693,6 +724,12 @@ def show_op(spec, op):
         return f"kept = LocatedDifferential({op[1]}, {P(op[2])})"
     if k == "LD.read":
         return f"kept.component('{op[1]}')"
+    if k == "Df.comp.keep":
+        return f"keptP = {op[1]}.component('{op[2]}')"
+    if k == "keptP.at":
+        return f"keptP.at({P(op[1])})"
+    if k == "keptP.asexpr":
+        return "keptP.as_expression()"
     if k == "repr":
         return f"repr({op[1]})"
     if k == "out.repr":
